@@ -38,6 +38,10 @@ type inst struct {
 	nstep int
 	nmap  int
 	nsync int
+	nelem int
+	// header nodes that are evaluated conditionally (else-if headers, case expressions): element
+	// bases are not hoisted out of them
+	noElem map[ast.Node]bool
 }
 
 func main() {
@@ -55,7 +59,7 @@ func main() {
 	p := pkgs[0]
 	overlay := map[string]string{}
 	os.MkdirAll(outDir, 0o755)
-	tot := [3]int{}
+	tot := [4]int{}
 	for i, f := range p.Syntax {
 		in := &inst{pkg: p, fset: p.Fset, info: p.TypesInfo, file: f, fname: filepath.Base(p.GoFiles[i])}
 		for _, d := range f.Decls {
@@ -78,6 +82,7 @@ func main() {
 		tot[0] += in.nstep
 		tot[1] += in.nmap
 		tot[2] += in.nsync
+		tot[3] += in.nelem
 		if !in.used {
 			continue
 		}
@@ -102,7 +107,7 @@ func main() {
 	}
 	js, _ := json.MarshalIndent(map[string]interface{}{"Replace": overlay}, "", " ")
 	os.WriteFile(filepath.Join(outDir, "overlay.json"), js, 0o644)
-	fmt.Printf("steps=%d mapranges=%d syncshims=%d files=%d\n", tot[0], tot[1], tot[2], len(overlay)-len(rtFiles))
+	fmt.Printf("steps=%d mapranges=%d syncshims=%d elemaccs=%d files=%d\n", tot[0], tot[1], tot[2], tot[3], len(overlay)-len(rtFiles))
 }
 
 func addImport(f *ast.File, path string) {
@@ -138,6 +143,7 @@ func (in *inst) list(l []ast.Stmt) []ast.Stmt {
 func (in *inst) stmt(s ast.Stmt) (pre []ast.Stmt, out ast.Stmt) {
 	out = s
 	var hdr []ast.Node // nodes whose accesses belong to this step
+	var rangeX ast.Expr // operand of a range statement (before the map-range rewrite)
 	switch x := s.(type) {
 	case *ast.BlockStmt:
 		in.block(x)
@@ -164,6 +170,7 @@ func (in *inst) stmt(s ast.Stmt) (pre []ast.Stmt, out ast.Stmt) {
 		}
 	case *ast.RangeStmt:
 		hdr = append(hdr, x.X)
+		rangeX = x.X
 		in.block(x.Body)
 		if t := in.info.TypeOf(x.X); t != nil {
 			if mt, ok := t.Underlying().(*types.Map); ok {
@@ -178,6 +185,7 @@ func (in *inst) stmt(s ast.Stmt) (pre []ast.Stmt, out ast.Stmt) {
 			cc := c.(*ast.CaseClause)
 			for _, e := range cc.List {
 				hdr = append(hdr, e)
+				in.skipElems(e)
 			}
 			cc.Body = in.list(cc.Body)
 		}
@@ -210,17 +218,41 @@ func (in *inst) stmt(s ast.Stmt) (pre []ast.Stmt, out ast.Stmt) {
 			return true
 		})
 	}
-	accs, extra := in.accesses(hdr...)
+	accs, extra := in.accessesAt(s.Pos(), hdr...)
 	// sync shims (rewrites calls in place)
 	for _, h := range hdr {
 		if !isNil(h) {
 			in.shimSync(h)
 		}
 	}
+	if rangeX != nil {
+		if b, ok := in.elemBase(rangeX, s.Pos()); ok {
+			dup := false
+			for _, a := range accs {
+				if a.elem != 0 && exprString(a.base) == exprString(b) {
+					dup = true
+				}
+			}
+			if !dup {
+				accs = append(accs, access{base: b, field: "[]", elem: 'r'})
+			}
+		}
+	}
 	if len(accs) > 0 || extra {
 		pre = append(pre, in.stepStmt(s.Pos(), in.site(s), accs))
 	}
 	return pre, out
+}
+
+func (in *inst) skipElems(nodes ...ast.Node) {
+	if in.noElem == nil {
+		in.noElem = map[ast.Node]bool{}
+	}
+	for _, n := range nodes {
+		if !isNil(n) {
+			in.noElem[n] = true
+		}
+	}
 }
 
 func isNil(n ast.Node) bool {
@@ -240,12 +272,225 @@ type access struct {
 	base  ast.Expr // nil for globals
 	field string
 	write bool
+	// elem: 0 = field/global access; otherwise an access to the ELEMENTS of the slice or map `base`
+	// evaluates to, identified at run time by the backing array / map header (so that an access
+	// through a local alias - fields := seg.Fields(); fields[0] = x - meets the owner's accesses):
+	// 'r' read, 'w' write, 'a' append (a write only if len < cap, decided at run time)
+	elem byte
 }
 
 // accesses collects shared accesses in the given nodes (not descending into func literals).
 // extra reports channel ops / sync calls that make this a scheduling point without accesses.
 func (in *inst) accesses(nodes ...ast.Node) (out []access, extra bool) {
+	return in.accessesAt(token.NoPos, nodes...)
+}
+
+// elemBase reports whether x is a slice (non-byte elements) or map valued expression that can be
+// evaluated a second time, ahead of the statement at pos, without changing behaviour.
+func (in *inst) elemBase(x ast.Expr, pos token.Pos) (ast.Expr, bool) {
+	for {
+		if p, ok := x.(*ast.ParenExpr); ok {
+			x = p.X
+			continue
+		}
+		// buf[:n] / buf[0:n] share buf's first element
+		if se, ok := x.(*ast.SliceExpr); ok {
+			if se.Low == nil {
+				x = se.X
+				continue
+			}
+			if bl, ok := se.Low.(*ast.BasicLit); ok && bl.Value == "0" {
+				x = se.X
+				continue
+			}
+		}
+		break
+	}
+	t := in.info.TypeOf(x)
+	if t == nil {
+		return nil, false
+	}
+	switch u := t.Underlying().(type) {
+	case *types.Slice:
+		if b, ok := u.Elem().Underlying().(*types.Basic); ok && (b.Kind() == types.Uint8 || b.Kind() == types.Byte) {
+			return nil, false
+		}
+	case *types.Map:
+	default:
+		return nil, false
+	}
+	if !in.pureElem(x, pos, 0) {
+		return nil, false
+	}
+	return x, true
+}
+
+// pureElem: identifiers, field selections, dereferences and indexing by an identifier or literal,
+// all of whose variables are declared before pos.
+func (in *inst) pureElem(x ast.Expr, pos token.Pos, depth int) bool {
+	switch v := x.(type) {
+	case *ast.Ident:
+		o := in.info.Uses[v]
+		if o == nil {
+			return false
+		}
+		if _, isVar := o.(*types.Var); !isVar {
+			return false
+		}
+		if pos != token.NoPos && o.Parent() != in.pkg.Types.Scope() && o.Pos() >= pos {
+			return false
+		}
+		return true
+	case *ast.SelectorExpr:
+		if s, ok := in.info.Selections[v]; !ok || s.Kind() != types.FieldVal {
+			return false
+		}
+		return in.pureElem(v.X, pos, depth)
+	case *ast.ParenExpr:
+		return in.pureElem(v.X, pos, depth)
+	case *ast.StarExpr:
+		return in.pureElem(v.X, pos, depth)
+	case *ast.IndexExpr:
+		if depth > 0 {
+			return false
+		}
+		if t := in.info.TypeOf(v.X); t != nil {
+			if _, isMap := t.Underlying().(*types.Map); isMap {
+				return false // would need the comma-ok form to stay panic-free... keep it simple
+			}
+		}
+		switch i := v.Index.(type) {
+		case *ast.BasicLit:
+		case *ast.Ident:
+			if !in.pureElem(i, pos, depth+1) {
+				return false
+			}
+		default:
+			return false
+		}
+		return in.pureElem(v.X, pos, depth+1)
+	}
+	return false
+}
+
+func (in *inst) accessesAt(pos token.Pos, nodes ...ast.Node) (out []access, extra bool) {
 	writes := map[ast.Expr]bool{}
+	elems := map[string]access{}
+	var elemOrder []string
+	addElem := func(x ast.Expr, kind byte) {
+		b, ok := in.elemBase(x, pos)
+		if !ok {
+			return
+		}
+		key := exprString(b)
+		old, seen := elems[key]
+		if !seen {
+			elemOrder = append(elemOrder, key)
+		}
+		// strongest kind wins: w > a > r
+		rank := map[byte]int{0: 0, 'r': 1, 'a': 2, 'w': 3}
+		if rank[kind] > rank[old.elem] {
+			elems[key] = access{base: b, field: "[]", elem: kind, write: kind != 'r'}
+		}
+	}
+	// guarded: depth of enclosing conditionally evaluated operands (right side of && and ||):
+	// hoisting an element base out of them could dereference a nil the guard protects against
+	var walkElems func(n ast.Node, lhs bool)
+	walkElems = func(n ast.Node, lhs bool) {
+		if isNil(n) {
+			return
+		}
+		switch v := n.(type) {
+		case *ast.FuncLit:
+			return
+		case *ast.BinaryExpr:
+			walkElems(v.X, false)
+			if v.Op == token.LAND || v.Op == token.LOR {
+				return // right operand: conditionally evaluated
+			}
+			walkElems(v.Y, false)
+			return
+		case *ast.AssignStmt:
+			for _, l := range v.Lhs {
+				walkElems(l, true)
+			}
+			for _, r := range v.Rhs {
+				walkElems(r, false)
+			}
+			return
+		case *ast.IncDecStmt:
+			walkElems(v.X, true)
+			return
+		case *ast.ParenExpr:
+			walkElems(v.X, lhs)
+			return
+		case *ast.SelectorExpr:
+			walkElems(v.X, lhs) // x[i].f = v writes the element
+			return
+		case *ast.IndexExpr:
+			if lhs {
+				addElem(v.X, 'w')
+			} else {
+				addElem(v.X, 'r')
+			}
+			walkElems(v.X, false)
+			walkElems(v.Index, false)
+			return
+		case *ast.CallExpr:
+			name := ""
+			switch f := v.Fun.(type) {
+			case *ast.Ident:
+				name = f.Name
+			case *ast.SelectorExpr:
+				if id, ok := f.X.(*ast.Ident); ok {
+					name = id.Name + "." + f.Sel.Name
+				}
+			}
+			if len(v.Args) > 0 {
+				switch name {
+				case "append":
+					addElem(v.Args[0], 'a')
+					for _, a := range v.Args[1:] {
+						if v.Ellipsis != token.NoPos {
+							addElem(a, 'r')
+						}
+					}
+				case "copy":
+					addElem(v.Args[0], 'w')
+					if len(v.Args) > 1 {
+						addElem(v.Args[1], 'r')
+					}
+				case "delete":
+					addElem(v.Args[0], 'w')
+				case "sort.Strings", "sort.Ints", "sort.Slice", "sort.SliceStable", "sort.Float64s":
+					addElem(v.Args[0], 'w')
+				}
+			}
+			walkElems(v.Fun, false)
+			for _, a := range v.Args {
+				walkElems(a, false)
+			}
+			return
+		case *ast.RangeStmt:
+			// only the operand is part of the header
+			addElem(v.X, 'r')
+			walkElems(v.X, false)
+			return
+		}
+		// generic descent
+		ast.Inspect(n, func(c ast.Node) bool {
+			if c == n || c == nil {
+				return true
+			}
+			walkElems(c, false)
+			return false
+		})
+	}
+	for _, n := range nodes {
+		if !isNil(n) && !in.noElem[n] {
+			walkElems(n, false)
+		}
+	}
 	markLHS := func(e ast.Expr) {
 		// find root-most shared selector along the lvalue path
 		for {
@@ -338,7 +583,7 @@ func (in *inst) accesses(nodes ...ast.Node) (out []access, extra bool) {
 						key := exprString(b) + "." + v.Sel.Name + fmt.Sprint(writes[v])
 						if !seen[key] {
 							seen[key] = true
-							out = append(out, access{b, v.Sel.Name, writes[v]})
+							out = append(out, access{base: b, field: v.Sel.Name, write: writes[v]})
 						}
 					}
 				}
@@ -347,7 +592,7 @@ func (in *inst) accesses(nodes ...ast.Node) (out []access, extra bool) {
 					key := "global." + v.Name + fmt.Sprint(writes[v])
 					if !seen[key] {
 						seen[key] = true
-						out = append(out, access{nil, v.Name, writes[v]})
+						out = append(out, access{field: v.Name, write: writes[v]})
 					}
 				}
 			case *ast.CallExpr:
@@ -357,6 +602,9 @@ func (in *inst) accesses(nodes ...ast.Node) (out []access, extra bool) {
 			}
 			return true
 		})
+	}
+	for _, k := range elemOrder {
+		out = append(out, elems[k])
 	}
 	return out, extra
 }
@@ -470,6 +718,12 @@ func (in *inst) stepStmt(pos token.Pos, site string, accs []access) ast.Stmt {
 		var base ast.Expr = ast.NewIdent("nil")
 		if a.base != nil {
 			base = a.base
+		}
+		if a.elem != 0 {
+			in.nelem++
+			fn := map[byte]string{'r': "RE", 'w': "WE", 'a': "AE"}[a.elem]
+			args = append(args, &ast.CallExpr{Fun: in.rt(fn), Args: []ast.Expr{base}})
+			continue
 		}
 		args = append(args, &ast.CallExpr{Fun: in.rt(fn), Args: []ast.Expr{base, &ast.BasicLit{Kind: token.STRING, Value: strconv.Quote(a.field)}}})
 	}
